@@ -14,6 +14,9 @@ Next == i <= Len(Rows) /\ i' = i + 1
 
 DefaultValue == VC("list", <<VInt(77), VTarg(<<>>)>>)          \* Match(p, default=[77, T])
 
+Skipped(r) == Ev("auto", TreeOf(r.heap, r.root), PMatch(r.pattern, FALSE, VNone)).amb \/
+              Ev("auto", TreeOf(r.heap, r.root), PMatch(r.pattern, TRUE, DefaultValue)).amb
+
 \* one observed call against one predicted outcome
 Judge(o, ob) ==
   IF o.ok # ob.ok THEN "outcome"
@@ -46,5 +49,6 @@ Verdict(r) ==
 Check ==
   IF i <= Len(Rows)
   THEN LET v == Verdict(Rows[i]) IN v = "" \/ PrintT(ToJson([reject |-> i, clause |-> v]))
-  ELSE PrintT(ToJson([done |-> Len(Rows)]))
+  ELSE PrintT(ToJson([done |-> Len(Rows),      \* skipped: rows whose outcome depends on an order the documentation leaves open
+                      skipped |-> Cardinality({j \in 1..Len(Rows) : Skipped(Rows[j])})]))
 ====================================================================================
